@@ -1240,6 +1240,15 @@ def check_C02(rep, prog, tier):
             return bool(out.get('broken')) or any(not s_.get('ok') for s_ in out.get('steps', []))
         return b.get('scenario'), jf
     run('bounded history: every completed version keeps resolving to its own snapshot after every step', B.make_history(prog), hist_judge)
+    # kind swaps between versions (file -> symlink, directory -> file, symlink -> directory, and the reverse): the new version
+    # records the new kind, nothing of the basis entry is carried over, and the previous version is untouched
+    swaps = _bcases([('SFD', [0, 1, 0])], ['none'], prior='built', prior_kinds='FDS', prior_classes=[1, 0, 0])
+    swaps += _bcases([('FDS', [1, 0, 0])], ['none'], prior='built', prior_kinds='SFD', prior_classes=[0, 1, 0])
+    if tier != 'quick':
+        swaps += _bcases([('SFD', [0, 1, 0])], ['crash'], prior='built', prior_kinds='FDS', prior_classes=[1, 0, 0])
+    rep.bounds['kind_swaps'] = [BC.case_name(c) for c in swaps]
+    BC.run_cases(rep, prog, swaps, dl, 'C02', 'a path that changes kind between versions is recorded with its new kind only; the previous version is untouched',
+                 require=[r'event-free run'])
 
 
 def check_C06(rep, prog, tier):
